@@ -345,7 +345,7 @@ def _check_node(node, st, fl):
             for k in ('active', 'inactive'):
                 if node.get(k) is not None and node[k] < 0:
                     raise Invalid('time-outs must not be negative')
-            if node.get('dt') not in (None, False, True, 'seconds', 'hours', 'days', 'np_int', 'np_uint', 'np_float', 'np_dt64'):
+            if node.get('dt') not in (None, False, True, 'seconds', 'hours', 'days', 'np_int', 'np_uint', 'np_arr0', 'np_float', 'np_dt64'):
                 raise Invalid('time unit')
             # a closing item that is not included, or a zero time-out (the first item of a key expires the window it has just opened), leave empty windows
             inner_empty = bool(node.get('closing')) or node.get('active') == 0 or node.get('inactive') == 0
@@ -494,6 +494,8 @@ class Gen(object):
             elif t == 'int' and r.random() < 0.3:
                 node['key'] = r.choice(['half', 'inc'])
             return [node]
+        if op == 'do_action' and r.random() < 0.5:
+            return [{'op': 'do_action', 'cb': 'all'}]       # every callback given, not only on_next
         if op in ('first', 'last', 'identity', 'do_action', 'assert_', 'assert_1', 'to_list', 'flat_map'):
             return [{'op': op}]
         if op == 'take':
@@ -809,6 +811,10 @@ def build_node(node, ctx, mode, path, i):
     if op == 'identity':
         return rs.ops.identity()
     if op == 'do_action':
+        if node.get('cb') == 'all' and mode == 'mux':
+            return rs.ops.do_action(on_next=F.noop, on_completed=F.noop_any, on_create=F.noop_any, on_error=F.noop_any)
+        if node.get('cb') == 'all':
+            return rs.ops.do_action(on_next=F.noop, on_completed=F.noop_any, on_error=F.noop_any)
         return rs.ops.do_action(on_next=F.noop)
     if op == 'assert_':
         return rs.ops.assert_(F.ASSERT_PREDS[node['pred']] if node.get('pred') else F.always_true, name='sim')
@@ -822,7 +828,7 @@ def build_node(node, ctx, mode, path, i):
         bs = []
         for bi, b in enumerate(node['branches']):
             bs.append(rx.pipe(*build(b, ctx, mode, '%s/%d:b%d' % (path, i, bi))))
-        return rs.ops.tee_map(*bs, join=node['join'])
+        return rs.ops.tee_map(*bs, join=''.join(list(node['join'])))      # an equal string built at run time, not the interned literal
     if op == 'ignore':
         return rs.error.ignore()
     if op == 'error_map':
@@ -831,6 +837,9 @@ def build_node(node, ctx, mode, path, i):
             return rs.error.map(F.error_to_rec)
         if val == 'same':
             return rs.error.map(F.error_same)
+        if node.get('partial'):
+            import functools
+            return rs.error.map(functools.partial(F.const_of, val))      # a callable without __name__
         return rs.error.map(lambda e: val)
     if op == 'router':
         errors, route = rs.error.create_error_router()
@@ -929,7 +938,7 @@ def time_mapper(node):
     dt = node.get('dt')
     if not dt:
         return F.time_of
-    return {'hours': F.time_of_hours, 'days': F.time_of_days, 'np_int': F.time_of_np_int, 'np_uint': F.time_of_np_uint, 'np_float': F.time_of_np_float,
+    return {'hours': F.time_of_hours, 'days': F.time_of_days, 'np_int': F.time_of_np_int, 'np_uint': F.time_of_np_uint, 'np_arr0': F.time_of_np_arr0, 'np_float': F.time_of_np_float,
             'np_dt64': F.time_of_np_dt64}.get(dt, F.time_of_dt)
 
 
@@ -940,7 +949,7 @@ def timeout(node, k):
     dt = node.get('dt')
     if dt:
         from datetime import timedelta
-        if dt in ('np_int', 'np_float'):
+        if dt in ('np_int', 'np_float', 'np_arr0'):
             return v
         if dt == 'np_uint':
             import numpy
